@@ -88,7 +88,7 @@ def nth_indices(assertions):
     return out
 
 
-def encode(pc, hints, goal, pool, fresh, stage=3, extra_terms=()):
+def encode(pc, hints, goal, pool, fresh, stage=3, extra_terms=(), small=None):
     """pc ∧ hints ∧ ¬goal as a list of quantifier-free assertions (+ the full ∀s kept aside)"""
     enc = Encoded()
     pool = list(pool)
@@ -119,6 +119,10 @@ def encode(pc, hints, goal, pool, fresh, stage=3, extra_terms=()):
 
     def hyp_clause(c):
         nonlocal terms
+        if isinstance(c, dsl.All) and small is not None:
+            # small-model search: the range has at most `small` elements and the body holds at each of them.  This is
+            # STRONGER than the ∀ hypothesis, so a model of the result is a genuine model (used only to find witnesses)
+            return z3.And([c.hi - c.lo <= small] + [z3.Implies(c.lo + j < c.hi, _zb(c.f(c.lo + j))) for j in range(small)])
         if isinstance(c, dsl.All):
             if terms is None:
                 offs = []
@@ -326,6 +330,18 @@ def discharge(ctx, ob, z3_timeout_ms=None, use_cvc5=True):
         ob.hints = _resolve_haves(ctx, ob, z3_timeout_ms)
     nfresh0 = ctx.nfresh
     extra = []
+    if getattr(ctx, 'prefer_cvc5', False) and use_cvc5 and os.path.exists(CVC5):
+        # string-heavy units (contract attribute solver = 'cvc5'): word equations are cvc5's strength, z3 only burns its budget
+        enc = encode(ctx.pc[:ob.npc], ob.hints, ob.goal, ctx.pool, ctx.fresh, 0, extra)
+        ctx.nfresh = nfresh0
+        s0 = z3.Solver()
+        for a in enc.assertions + seq_axioms(enc.assertions):
+            s0.add(a)
+        res, dtc = check_cvc5(s0, CVC5_TIMEOUT_S)
+        if res == 'unsat':
+            ob.result, ob.solver, ob.genuine, ob.time = 'unsat', 'cvc5', False, time.time() - t0
+            return ob.result
+        z3_timeout_ms = min(z3_timeout_ms, 5000)
     for stage in (0, 1, 2, 3):
         ctx.nfresh = nfresh0          # same skolem names at every stage
         enc = encode(ctx.pc[:ob.npc], ob.hints, ob.goal, ctx.pool, ctx.fresh, stage, extra)
@@ -377,6 +393,18 @@ def discharge(ctx, ob, z3_timeout_ms=None, use_cvc5=True):
                 ob.result = 'sat'
                 ob.solver = 'cvc5'
                 ob.genuine = True
+    if ob.result == 'unknown' and enc.weakened:
+        # witness search in small models (ranges of the ∀ hypotheses of at most 4 elements): finds genuine counterexamples
+        # where the full quantifiers leave the solver without an answer
+        ctx.nfresh = nfresh0
+        encs = encode(ctx.pc[:ob.npc], ob.hints, ob.goal, ctx.pool, ctx.fresh, 0, (), small=4)
+        s4, r4, dt4 = check_z3(encs.assertions, min(z3_timeout_ms, 10000))
+        if r4 == z3.sat:
+            ob.result = 'sat'
+            ob.model = s4.model()
+            ob.genuine = True
+            ob.solver = 'z3'
+            ob.reason = 'small-model witness'
     if ob.result == 'unknown' and not getattr(ob, '_retried', False):
         # solver instability insurance: one more attempt with another seed and a three times larger budget
         s3 = z3.Solver()
